@@ -935,7 +935,9 @@ fn deser_prepared_metadata(
     let pk_count: usize =
         types::read_int_length(buf).map_err(PreparedMetadataParseError::PkCountParseError)?;
 
-    let mut pk_indexes = Vec::with_capacity(pk_count);
+    // `pk_count` comes from the wire. Each index is a [short], so do not reserve
+    // more than the buffer can hold.
+    let mut pk_indexes = Vec::with_capacity(pk_count.min(buf.len() / 2));
     for i in 0..pk_count {
         pk_indexes.push(PartitionKeyIndex {
             index: types::read_short(buf)
